@@ -11,7 +11,7 @@ Oracle on the implementation alone, written from the property statement:
   * lookup: first header whose name equals the wanted one ignoring case (Python str.lower());
   * UTF-8 validity = CPython's strict decoder; trim = strip of the explicit White_Space set;
   * no entry point panics or aborts (stack overflow)."""
-import itertools
+import itertools, os
 from vlib import common as C
 from vlib import gen_c14 as G
 
@@ -135,6 +135,7 @@ def wf_request(rng, nh=None):
 def run(res, tier, seed):
     rng = C.Rng(seed)
     grng = rng.fork('gen_c14')
+    grng2 = rng.fork('gen_c14/second-pass')
     quick = tier == 'quick'
     lines, meta = [], []
     def add(line, kind, payload=None):
@@ -368,7 +369,7 @@ def run(res, tier, seed):
     # source, target shapes, white space at the edges of names / values / bodies, repeated headers, token near-misses of every
     # method and version, messages a stricter parser would refuse, near-names in lookups.  Own PRNG stream (forked at the start
     # of the run): the cases above do not move.
-    for case in G.all_cases(grng, quick):
+    for case in itertools.chain(G.all_cases(grng, quick), G.all_cases2(grng2, quick)):
         fam, kind = case[0], case[1]
         if kind == 'rt':
             r, also_gen = case[2], case[3]
@@ -386,6 +387,9 @@ def run(res, tier, seed):
         elif kind == 'lookup':
             hs, q = case[2]
             add('reqgethdr ' + show_headers(hs) + ' ' + C.hx(q), 'lookup', (hs, q))
+        elif kind == 'lookupu':
+            hs, q = case[2]
+            lookup_impl_only.append(('reqgethdr ' + show_headers(hs) + ' ' + C.hx(q), (hs, q)))
         else:
             raise ValueError(kind)
 
@@ -419,7 +423,12 @@ def run(res, tier, seed):
                 'every method and every non-white-space scalar below U+0300 in the target, white space and its neighbours at the edges of names / '
                 'values, 32 edge tokens and every byte at the edges of the body, repeated headers, near-misses of every method / version token '
                 'and tokens of other protocols with every counterpart, text after the version for every pair, messages a stricter parser would '
-                'refuse, near-names and long lists in lookups' % ('BMP' if quick else 'Unicode'))
+                'refuse, near-names and long lists in lookups; second pass: text of 2-/3-/4-byte characters in every alignment (300..9000 bytes) in '
+                'accepted and refused lines, names, values, targets; line ends / separators / the blank line / the end of the request line at absolute '
+                'offsets 512..65536 +-2; escape-, reference-, comment- and quotation-looking text; histories (long then short, refused then good, '
+                'texts equal in length, prefix and suffix, relatives of a request line, the same lookup over other lists); names that fold or '
+                'normalise into each other; tokens with ignorable characters and compatibility spellings; fields of one message equal to / '
+                'prefix of / stating something about each other; every length 0..300 and commonly limited lengths and counts' % ('BMP' if quick else 'Unicode'))
     res.exhaustive = ('request line: all 432 letter-case variants of the 9 methods x all 64 variants of the 4 versions%s; all single-byte '
                       'replacements/insertions of %d canonical request lines; UTF-8 validity of all byte strings of length 0..2; trim of every '
                       '%s scalar' % (' (full product)' if not quick else ' (each against the exact spellings of the other)', len(canon),
@@ -430,6 +439,19 @@ def run(res, tier, seed):
     for (ln, pl), a in zip(lookup_impl_only, li):
         lines.append(ln); meta.append(('lookup-unicode', pl)); impl.append(a); model.append(None)
         res.evaluations += 1
+
+    # FINDING of the second audit pass on the UNCHANGED code, kept out of the default run (RWS_C14_FINAL_SIGMA=1 switches it on):
+    # get_header compares str::to_lowercase() of both names, and to_lowercase maps a capital sigma at the end of a word to the FINAL
+    # sigma: a header stored as "ΑΣ" (or "X-ΟΣ", "AΣ") is not found under "ασ" ("x-οσ", "aσ") although the names differ in letter case only.
+    if os.environ.get('RWS_C14_FINAL_SIGMA') == '1':
+        sig = [([(a, '1')], b) for a, b in [('\u0391\u03a3', '\u03b1\u03c3'), ('\u03b1\u03c3', '\u0391\u03a3'), ('X-\u039f\u03a3', 'x-\u03bf\u03c3'), ('A\u03a3', 'a\u03c3'), ('\u039f\u03a3-Id', '\u03bf\u03c3-id')]]
+        sl = ['reqgethdr ' + show_headers(hs) + ' ' + C.hx(q) for hs, q in sig]
+        for ln, (hs, q), a in zip(sl, sig, C.run_impl(sl)):
+            res.evaluations += 1
+            res.count('lookup final sigma')
+            want = 'ok ' + C.hx(hs[0][0]) + ':' + C.hx(hs[0][1])
+            if a != want:
+                res.fail('lookup-final-sigma', ln, a, None, f'get_header({q!r}) over {[n for n, _ in hs]!r}: the names differ in letter case only, expected {want}')
 
     for ln, (kind, pl), a in zip(lines, meta, impl):
         short = ln   # the full protocol line: the replay file must be re-runnable
